@@ -100,11 +100,24 @@ impl CipherMethod {
     }
 
     pub fn decrypt_in_place(&self, nonce: &[u8], associated_data: &[u8], ciphertext: &mut dyn Buffer) -> Result<(), aead::Error> {
+        #[cfg(feature = "verif")]
+        if let Some(scripted) = crate::verif::next_open() {
+            let plaintext = scripted.ok_or(aead::Error)?;
+            ciphertext.truncate(0);
+            return ciphertext.extend_from_slice(&plaintext);
+        }
         method_match_aead_fn!(self, decrypt_in_place, (nonce.into(), associated_data, ciphertext))
     }
 
     pub fn decrypt_in_place_detached(&self, nonce: &[u8], associated_data: &[u8], ciphertext: &mut [u8]) -> Result<(), aead::Error> {
         let (buffer, tag) = ciphertext.split_at_mut(ciphertext.len() - self.tag_size());
+        #[cfg(feature = "verif")]
+        if let Some(scripted) = crate::verif::next_open() {
+            let plaintext = scripted.ok_or(aead::Error)?;
+            let n = buffer.len().min(plaintext.len());
+            buffer[..n].copy_from_slice(&plaintext[..n]);
+            return Ok(());
+        }
         method_match_aead_fn!(self, decrypt_in_place_detached, (nonce.into(), associated_data, buffer, GenericArray::from_mut_slice(tag)))
     }
 
